@@ -134,6 +134,17 @@ def gen_cases(tier, seed):
         args = ["--driver", driver, "-w", str(r.choice([1, 4])), "--reflink", "never"] + (["--no-progress"] if bsel[1] is None else ["--block-size", str(bsel[1])]) + ["src/f0", "dst"]
         yield {"fs": "ext4" if i % 4 < 2 else "tmpfs", "spec": [{"p": "src", "k": "d"}, f], "pre": [], "args": args, "single": True, "prior": "absent", "driver": driver,
                "block": bsel[0], "bsv": bsel[1], "workers": 4, "sched": "os", "sseed": 1}
+    for i in range(8 if tier == "quick" else 60):
+        # blocks of many MiB through the user-space copy path (source on the other filesystem): dense runs longer than any buffer
+        driver = ["parblock", "parfile"][i % 2]
+        size = r.choice([(8 << 20) + 1, (9 << 20) + 12345, (16 << 20) + 4096, (17 << 20) + 3, 25000000])
+        bsel = r.choice([("np", None), ("16MB", 16000000), ("32MB", 32000000), ("np", None)])
+        f = {"p": "src/f0", "k": "f", "size": size, "seed": r.randrange(1, 1 << 30), "segs": None, "sync": False, "layout": "dense"}
+        if r.random() < 0.3:
+            f.update({"segs": [[4096, (9 << 20) + 77], [size - 5000, 5000]], "layout": "sparse-unaligned", "sync": True})
+        args = ["--driver", driver, "-w", str(r.choice([1, 2, 4]))] + (["--no-progress"] if bsel[1] is None else ["--block-size", str(bsel[1])]) + ["src/f0", "dst"]
+        yield {"xdev": True, "fs": ["ext4", "tmpfs"][(i // 2) % 2], "spec": [{"p": "src", "k": "d"}, f], "pre": [], "args": args, "single": True, "prior": "absent", "driver": driver,
+               "block": bsel[0], "bsv": bsel[1], "workers": 4, "sched": "os", "sseed": 1}
     if tier == "thorough":
         # one file larger than a single kernel copy request (2 GiB - 4 KiB), both drivers, --no-progress and 1MB blocks
         for driver in ("parblock", "parfile"):
